@@ -88,3 +88,14 @@ Definition match_fact (fuel : nat) (pat args : list term) : mres :=
   | (UFail, _) => MNo
   | _ => MStuck
   end.
+
+(* "binds the pattern to it": an answer is the pattern under bindings that make it equal to the
+   fresh copy of the stored fact *)
+Lemma match_fact_sound fuel pat args a : match_fact fuel pat args = MYes a ->
+  exists s, wf s /\ a = map (den s) pat /\
+            a = map (den s) (fst (copy_args [] args (Nat.max (bound_list pat) (bound_list args)))).
+Proof.
+  unfold match_fact, answer_match. destruct (copy_args [] args (Nat.max (bound_list pat) (bound_list args))) as [cs n'] eqn:C.
+  destruct (unify_arrays fuel [] pat cs) as [s| | |] eqn:U; try discriminate. intros H. inversion H; subst.
+  destruct (unify_arrays_sound _ _ _ wf_nil U) as [W [_ E]]. exists s. simpl. auto.
+Qed.
